@@ -131,7 +131,9 @@ def file_case(draw, tier):
     return {"part": "file", "cols": cols, "rows": rows, "extras": extras,
             "header_override": header_override,
             "has_header_line": has_header_line, "opts": opts,
-            "input": inp, "axis": axis, "crlf": False}
+            "input": inp, "axis": axis, "crlf": False,
+            "sub": inp.startswith("cli") and
+            draw(st.sampled_from([False] * 40 + [True]))}
 
 
 def strategy(tier):
@@ -393,11 +395,11 @@ def check_file(case, rec):
         if any("," in c for c in case["cols"]):
             rec.skip("comma in a column name cannot be passed to the CLI")
             return
-        try:
-            add_metadata.main(args, standalone_mode=False)
-        except SystemExit as e:
-            if e.code not in (0, None):
-                bad("cli-exit", "add-metadata exited %r" % (e.code,))
+        from ..cli import invoke
+        rc, out_ = invoke(add_metadata, "add-metadata", args,
+                          case.get("sub", False))
+        if rc != 0:
+            bad("cli-exit", "add-metadata exited %r: %s" % (rc, out_[-300:]))
         r = observe.snapshot(load_table(out))
     rec.cls("cli:" + how)
     if r["obs"] != ["o0", "o1", "o2"] or r["samp"] != ["s0", "s1", "s2",
